@@ -59,6 +59,7 @@ fn main() {
         "c18-record" => c18::record(rest),
         "c12-replay" => c12::replay(rest),
         "c12-record" => c12::record(rest),
+        "c12-debug" => c12::debug(rest),
         "c19-replay" => c19::replay(rest),
         "c19-record" => c19::record(rest),
         "c16-unit" => c16::unit(rest),
